@@ -238,8 +238,14 @@ def gen_jansen_ill(rng, tier):
     yb = [rng.randint(-64, 64) / 64 for _ in range(n)]
     inert = [rng.random() < 0.4 for _ in range(d)]
     yc = [list(ya) if inert[i] else [rng.randint(-64, 64) / 64 for _ in range(n)] for i in range(d)]
-    return dict(kind="jansen_ill", d=d, n=n, ya=ya, yb=yb, yc=yc, inert=inert, offset=rng.choice([2.0 ** 10, 2.0 ** 14, 2.0 ** 18]),
-                scale=rng.choice([1.0, 0.5, 2.0]), f32=rng.random() < 0.5)
+    # either a large offset (mean >> spread) with an ordinary scale, or a tiny positive scale without offset: both are
+    # affine rescalings a*y + b with a > 0 under which the index must not move (a tiny spread on top of a large offset
+    # would simply vanish in float32: constant outputs, excluded by the property)
+    if rng.random() < 0.6:
+        offset, scale = rng.choice([2.0 ** 10, 2.0 ** 14, 2.0 ** 18]), rng.choice([1.0, 0.5, 2.0])
+    else:
+        offset, scale = 0.0, rng.choice([2.0 ** -10, 2.0 ** -12, 2.0 ** -8])
+    return dict(kind="jansen_ill", d=d, n=n, ya=ya, yb=yb, yc=yc, inert=inert, offset=offset, scale=scale, f32=rng.random() < 0.5)
 
 
 def run_jansen_ill(case):
@@ -263,7 +269,8 @@ def term_jansen_ill(case, res):
         if inert:
             ok = ok and base[i] == 0.0 and sh[i] == 0.0                    # exactly zero
     # affine invariance; float32 scores lose the low bits of (offset + small), so the tolerance follows the offset
-    tol = (1e-9 if not case["f32"] else case["offset"] * 2.0 ** -21) * (1.0 + float(np.max(np.abs(base))))
+    # float32 outputs: relative precision 2^-24 of |offset| + scale, against a spread of order `scale`
+    tol = (1e-9 if not case["f32"] else max(1e-6, (case["offset"] / case["scale"]) * 2.0 ** -21)) * (1.0 + float(np.max(np.abs(base))))
     ok = ok and bool(np.all(np.abs(sh - base) <= tol))
     if not ok:
         return "false"
